@@ -91,6 +91,13 @@ func c20Gen(seed int64, idx int) *yang.ModSet {
 			yang.S("case", "cf", yang.S("leaf", "c20-config-leaf", yang.S("type", "string")))),
 		yang.S("list", "c20-state-list", yang.S("config", "false"), yang.S("key", "k"), yang.S("leaf", "k", yang.S("type", "string")),
 			yang.S("container", "inner", yang.S("leaf", "v", yang.S("type", "int8")))),
+		// unique sets over state leaves of a configuration list (directly, and through a state container): what a
+		// filter removes cannot be demanded any more
+		yang.S("list", "c20-uq", yang.S("key", "k"), yang.S("leaf", "k", yang.S("type", "string")), yang.S("unique", "st/a st/b"), yang.S("unique", "s1"),
+			yang.S("leaf", "s1", yang.S("type", "string"), yang.S("config", "false")),
+			yang.S("container", "st", yang.S("config", "false"), yang.S("leaf", "a", yang.S("type", "string")), yang.S("leaf", "b", yang.S("type", "int8")))),
+		yang.S("list", "c20-uq-cfg", yang.S("key", "k"), yang.S("leaf", "k", yang.S("type", "string")), yang.S("unique", "cc/a"),
+			yang.S("container", "cc", yang.S("leaf", "a", yang.S("type", "string")))),
 		yang.S("container", "c20-mixed", yang.S("leaf", "cfg", yang.S("type", "string")), yang.S("leaf", "st", yang.S("type", "string"), yang.S("config", "false")),
 			yang.S("choice", "mixch", yang.S("leaf", "m1", yang.S("type", "string"), yang.S("config", "false")), yang.S("leaf", "m2", yang.S("type", "string")))),
 	)
